@@ -280,3 +280,36 @@ Qed.
 
 Lemma winv_empty : winv empty_world [].
 Proof. intros t. exact I. Qed.
+
+(** the world after a history *)
+Fixpoint wrun (w : world) (ops : list op) : world :=
+  match ops with [] => w | o :: r => wrun (fst (fst (step w o))) r end.
+Fixpoint awrun (a : aworld) (ops : list op) : aworld :=
+  match ops with [] => a | o :: r => awrun (fst (astep a o)) r end.
+
+Theorem history_invariant : forall ops w a,
+  winv w a -> forallb supported ops = true -> winv (wrun w ops) (awrun a ops).
+Proof.
+  induction ops as [|o r IH]; intros w a Hinv Hs; [exact Hinv|].
+  cbn [forallb] in Hs. apply andb_true_iff in Hs. destruct Hs as [Ho Hr].
+  pose proof (step_refines w a o Hinv Ho) as Hst. cbn [wrun awrun].
+  destruct (step w o) as [[w' ob] tr]. destruct (astep a o) as [a' aob]. destruct Hst as [Hinv' _].
+  cbn [fst]. apply IH; assumption.
+Qed.
+
+(** two trees with the same entries, reached by any two supported histories in any worlds, have the
+    same height, the same size and the same shape *)
+Theorem same_entries_same_tree ops1 ops2 t1 t2 tr1 tr2 bf l :
+  forallb supported ops1 = true -> forallb supported ops2 = true ->
+  aget (w_trees (wrun empty_world ops1)) t1 = Some tr1 -> aget (awrun [] ops1) t1 = Some (bf, l) ->
+  aget (w_trees (wrun empty_world ops2)) t2 = Some tr2 -> aget (awrun [] ops2) t2 = Some (bf, l) ->
+  m_height _ _ (t_m tr1) = m_height _ _ (t_m tr2) /\ m_size _ _ (t_m tr1) = m_size _ _ (t_m tr2) /\
+  exists n1 n2, root_n _ _ (m_root _ _ (t_m tr1)) = Some n1 /\ root_n _ _ (m_root _ _ (t_m tr2)) = Some n2 /\
+                erase_n _ _ n1 = erase_n _ _ n2.
+Proof.
+  intros S1 S2 E1 A1 E2 A2.
+  pose proof (history_invariant ops1 empty_world [] winv_empty S1 t1) as H1. rewrite E1, A1 in H1.
+  pose proof (history_invariant ops2 empty_world [] winv_empty S2 t2) as H2. rewrite E2, A2 in H2.
+  destruct H1 as [C1 _]. destruct H2 as [C2 _].
+  exact (canon_unique key val kcmp (klayer bf) bf (t_m tr1) (t_m tr2) l C1 C2).
+Qed.
